@@ -3,7 +3,8 @@
    Definitions C11_*_statement of Proofs/Idna_Hyp.v; see theorem_notes in tools/props_d/C11.py. *)
 From RU Require Import Base.Prelude Base.Utf8 Base.U32_c13 Gen.Tables Model.Punycode Model.Uts46
   Proofs.Idna_Sim Proofs.Idna_Api Proofs.Idna_Known Proofs.Idna_Hyp Proofs.Idna_Tables Proofs.Idna_Redisc
-  Proofs.Idna_C10_Deny Proofs.Idna_C10_Prefix Proofs.Idna_C10_Inner Proofs.Idna_Mark Proofs.Idna_MarkWalk Proofs.Idna_MarkFffd.
+  Proofs.Idna_C10_Deny Proofs.Idna_C10_Prefix Proofs.Idna_C10_Inner Proofs.Idna_Mark Proofs.Idna_MarkWalk Proofs.Idna_MarkFffd
+  Proofs.Idna_WalkFun Proofs.Idna_WalkInv Proofs.Idna_WalkApi Proofs.Idna_WalkPass.
 
 (* the core: for EVERY adapter, the fail-fast run of process_inner returns early exactly when the
    marking run sets had_errors, and otherwise the two runs produce the same buffers *)
@@ -149,6 +150,144 @@ Check C11_passthrough_partial : forall A cfg ff p d deny hy k1 k2 w, bytes d -> 
   to_ascii A cfg d deny hy DIgnore = Ok (true, d) /\
   to_user_interface A cfg d deny hy p = UI true d false.
 Print Assumptions C11_passthrough_partial.
+
+(* ===== the output walks, functionally (task idna3) ===== *)
+(* THE FIRST WALK (uts46.rs 802-913), both error modes, every policy, both build configurations, every text the sink
+   receives: under the positional invariant of process_inner (one already_punycode entry per label; while the prefix is
+   unflushed, domain_name = P ++ the input labels the entries stand for, |P| = passthrough_up_to; fail-fast: no U+FFFD
+   in the labels) the walk
+     - panics exactly when the Punycode encoder fails on a label that must be encoded (outs = inr site), or - with
+       debug assertions and had_errors - where it would return Passthrough (813 / 844 / 899: finding F-C11-2);
+     - returns Passthrough exactly when no label forces a write (stays), and then the input is its own output;
+     - otherwise writes P ++ the per-label outputs joined by dots (out_label: MixedCaseAscii m -> m lower-cased;
+       written as Unicode -> the label; MixedCasePunycode m -> m lower-cased; else "xn--" ++ Punycode(label)) and
+       reports had_unicode_output = huo_fin.
+   The sites 805, 810, 830, 852, 885 are unreachable. *)
+Theorem C11_walk1_functional : forall cfg d he ff p tld bidi labels aps seen pte flushed huo P rl,
+  length labels = length aps ->
+  (ff = true -> efffd labels = false) ->
+  (flushed = false -> labels <> [] /\ d = P ++ tailtext seen rl /\ len P = pte /\ cover aps rl) ->
+  Post1 cfg d he flushed P (stays (uni1 ff p tld bidi) labels aps) (outs cfg (uni1 ff p tld bidi) labels aps) seen
+        (huo_fin ff p tld bidi huo labels aps) (walk1 cfg ff p d tld bidi he labels aps seen pte flushed huo).
+Proof. exact walk1_spec. Qed.
+Check C11_walk1_functional : forall cfg d he ff p tld bidi labels aps seen pte flushed huo P rl,
+  length labels = length aps ->
+  (ff = true -> efffd labels = false) ->
+  (flushed = false -> labels <> [] /\ d = P ++ tailtext seen rl /\ len P = pte /\ cover aps rl) ->
+  match outs cfg (uni1 ff p tld bidi) labels aps with
+  | inl os =>
+      if negb flushed && stays (uni1 ff p tld bidi) labels aps then
+        P ++ tailtext seen os = d /\
+        (if cfg && he
+         then exists s, snd (walk1 cfg ff p d tld bidi he labels aps seen pte flushed huo) = WPanic s /\ (s = 813 \/ s = 844 \/ s = 899)
+         else snd (walk1 cfg ff p d tld bidi he labels aps seen pte flushed huo) = WPass)
+      else snd (walk1 cfg ff p d tld bidi he labels aps seen pte flushed huo) = WEnd (huo_fin ff p tld bidi huo labels aps) /\
+           concat (fst (walk1 cfg ff p d tld bidi he labels aps seen pte flushed huo)) =
+             (if flushed then tailtext seen os else P ++ tailtext seen os)
+  | inr s => snd (walk1 cfg ff p d tld bidi he labels aps seen pte flushed huo) = WPanic s
+  end.
+Print Assumptions C11_walk1_functional.
+
+(* THE SECOND WALK (uts46.rs 925-1026, the ASCII sink of the dual-output mode): same invariant; it writes P ++ the
+   per-label outputs of the never-Unicode policy joined by dots, or panics exactly when the encoder fails; the sites
+   928, 933, 949, 992 are unreachable. *)
+Theorem C11_walk2_functional : forall cfg d he labels aps seen pte flushed P rl,
+  length labels = length aps ->
+  (flushed = false -> d = P ++ tailtext seen rl /\ len P = pte /\ cover aps rl) ->
+  Post2 flushed P (outs cfg is_ascii_l labels aps) seen (walk2 cfg d he labels aps seen pte flushed).
+Proof. exact walk2_spec. Qed.
+Check C11_walk2_functional : forall cfg d he labels aps seen pte flushed P rl,
+  length labels = length aps ->
+  (flushed = false -> d = P ++ tailtext seen rl /\ len P = pte /\ cover aps rl) ->
+  match outs cfg is_ascii_l labels aps with
+  | inl os => snd (walk2 cfg d he labels aps seen pte flushed) = WEnd false /\
+              concat (fst (walk2 cfg d he labels aps seen pte flushed)) = (if flushed then tailtext seen os else P ++ tailtext seen os)
+  | inr s => snd (walk2 cfg d he labels aps seen pte flushed) = WPanic s
+  end.
+Print Assumptions C11_walk2_functional.
+
+(* the fail-fast run of process_inner, for EVERY adapter (no rediscovery premise): it takes the early return, or it
+   returns exactly what the marking run returns, and that run is error-free *)
+Theorem C11_inner_wsim : forall A cfg hy deny d,
+  inner_wsim (process_inner A cfg true hy deny d) (process_inner A cfg false hy deny d).
+Proof. exact process_inner_wsim. Qed.
+Check C11_inner_wsim : forall A cfg hy deny d,
+  process_inner A cfg true hy deny d = I_EXIT \/
+  match process_inner A cfg false hy deny d with
+  | IRes ptu b he db ap => he = false /\ process_inner A cfg true hy deny d = process_inner A cfg false hy deny d
+  | IPanic s => process_inner A cfg true hy deny d = process_inner A cfg false hy deny d
+  end.
+Print Assumptions C11_inner_wsim.
+
+(* THE DUAL-OUTPUT MODE, IN FULL (C11_dual_statement): for every byte string, every deny list the API can build, every
+   hyphen mode and every output policy, when process with an ASCII sink (mark-errors mode) reports WroteToSink, the
+   Unicode text is what to_user_interface returns for the same arguments (without error), and to_ascii of the same
+   name succeeds with the text of the ASCII sink - or, when no label was written as Unicode (the ASCII sink is then
+   left empty), with the text of the first sink.  Only premise about the adapter: H0 (sampled by the harness). *)
+Theorem C11_dual : forall A cfg, map_normalize A [] = [] -> C11_dual_statement A cfg.
+Proof. exact c11_dual_full. Qed.
+Check C11_dual : forall A cfg, map_normalize A [] = [] -> forall d deny hy p s a, bytes d -> valid_deny deny ->
+  process A cfg false p d deny hy None None true = (PWroteToSink, s, a) ->
+  to_user_interface A cfg d deny hy p = UI false s false /\
+  exists b, to_ascii A cfg d deny hy DIgnore = Ok (b, match a with [] => s | _ => a end).
+Print Assumptions C11_dual.
+
+(* the adapter premise of C11_dual cannot be dropped (same adapter and name as C11_same_verdict_unconditional_refuted) *)
+Theorem C11_dual_unconditional_refuted : exists A, forall cfg, ~ C11_dual_statement A cfg.
+Proof. exact c11_dual_unconditional_refuted. Qed.
+Check C11_dual_unconditional_refuted : exists A, forall cfg, ~ C11_dual_statement A cfg.
+Print Assumptions C11_dual_unconditional_refuted.
+
+(* where the two runs of process_inner can differ, exactly: the fail-fast run takes the early return and the marking
+   run has set had_errors or appended an AalOther entry to already_punycode (or panicked) - or the two runs return
+   the same, error-free result.  Every adapter, no premise. *)
+Theorem C11_inner_osim : forall A cfg hy deny d,
+  inner_osim (process_inner A cfg true hy deny d) (process_inner A cfg false hy deny d).
+Proof. exact process_inner_osim. Qed.
+Check C11_inner_osim : forall A cfg hy deny d,
+  (process_inner A cfg true hy deny d = I_EXIT /\
+   match process_inner A cfg false hy deny d with
+   | IRes _ _ he _ ap => he = true \/ In AalOther ap
+   | IPanic _ => True
+   end) \/
+  match process_inner A cfg false hy deny d with
+  | IRes ptu b he db ap => he = false /\ process_inner A cfg true hy deny d = process_inner A cfg false hy deny d
+  | IPanic s => process_inner A cfg true hy deny d = process_inner A cfg false hy deny d
+  end.
+Print Assumptions C11_inner_osim.
+
+(* THE PASSTHROUGH OUTCOME, IN FULL (C11_passthrough_statement), for EVERY adapter (no premise): in every mode
+   (fail-fast or mark-errors, any policy, any sinks, with or without ASCII sink), outside Known_C11 (finding F-C11-2,
+   exactly), Passthrough is returned only for an ASCII input that is its own ToASCII result (to_ascii returns it
+   borrowed).  The premise H0 of the other clauses is not needed here: a Passthrough result has no AalOther entry,
+   and such a marking run is reproduced by the fail-fast run (C11_inner_osim). *)
+Theorem C11_passthrough : forall A cfg, C11_passthrough_statement A cfg.
+Proof. exact c11_passthrough_all. Qed.
+Check C11_passthrough : forall A cfg ff p d deny hy k1 k2 w s a, bytes d -> valid_deny deny ->
+  process A cfg ff p d deny hy k1 k2 w = (PPassthrough, s, a) ->
+  Known_C11 A cfg d deny hy = false ->
+  ascii d /\ to_ascii A cfg d deny hy DIgnore = Ok (true, d).
+Print Assumptions C11_passthrough.
+
+Theorem C11_passthrough_ascii : forall A cfg ff p d deny hy k1 k2 w s a, bytes d ->
+  process A cfg ff p d deny hy k1 k2 w = (PPassthrough, s, a) -> ascii d.
+Proof. exact passthrough_ascii_input. Qed.
+Check C11_passthrough_ascii : forall A cfg ff p d deny hy k1 k2 w s a, bytes d ->
+  process A cfg ff p d deny hy k1 k2 w = (PPassthrough, s, a) -> ascii d.
+Print Assumptions C11_passthrough_ascii.
+
+(* C11_dual / C11_passthrough: the toy adapter meets H0; a dual-output call that writes both sinks ("bücher.DE"), one
+   whose ASCII sink stays empty ("A.b"), and a Passthrough beyond the fastest tier ("1a.xn--bcher-kva") *)
+Example C11_dual_premises_hold :
+  map_normalize toy [] = [] /\
+  process toy true false always_unicode [98; 195; 188; 99; 104; 101; 114; 46; 68; 69] DENY_EMPTY HAllow None None true
+    = (PWroteToSink, [98; 252; 99; 104; 101; 114; 46; 100; 101],
+       [120; 110; 45; 45; 98; 99; 104; 101; 114; 45; 107; 118; 97; 46; 100; 101]) /\
+  process toy true false always_unicode [65; 46; 98] DENY_EMPTY HAllow None None true = (PWroteToSink, [97; 46; 98], []) /\
+  process toy true false never_unicode [49; 97; 46; 120; 110; 45; 45; 98; 99; 104; 101; 114; 45; 107; 118; 97] DENY_EMPTY HAllow None None true
+    = (PPassthrough, [], []) /\
+  Known_C11 toy true [49; 97; 46; 120; 110; 45; 45; 98; 99; 104; 101; 114; 45; 107; 118; 97] DENY_EMPTY HAllow = false.
+Proof. vm_compute. repeat split; reflexivity. Qed.
 
 (* non-vacuity: a name with an error (both modes err, U+FFFD shown) and one without, in the model *)
 (* regenerated constants used by the marking sites: is_bidi threshold, joiner range, map_transitional table *)
